@@ -503,7 +503,7 @@ func c04StreamProgress(c *core.Ctx, fn *ssa.Function) {
 	// the compaction: copy(buf, buf[low:high])
 	var cp *ssa.Call
 	var low, high ssa.Value
-	core.Instrs(fn, func(in ssa.Instruction) {
+	core.InstrsDeep(fn, func(in ssa.Instruction) {
 		cl, ok := isBuiltinCall(in, "copy")
 		if !ok {
 			return
@@ -529,7 +529,7 @@ func c04StreamProgress(c *core.Ctx, fn *ssa.Function) {
 		set := map[ssa.Value]bool{}
 		var walk func(v ssa.Value)
 		walk = func(v ssa.Value) {
-			v = core.StripConv(v)
+			v = core.Resolve(core.StripConv(v))
 			if v == nil || set[v] {
 				return
 			}
@@ -551,7 +551,7 @@ func c04StreamProgress(c *core.Ctx, fn *ssa.Function) {
 	hi, lo := family(high), family(low)
 	isPending := func(v ssa.Value) bool {
 		b, ok := core.StripConv(v).(*ssa.BinOp)
-		return ok && b.Op == token.SUB && hi[core.StripConv(b.X)] && lo[core.StripConv(b.Y)] && !lo[core.StripConv(b.X)]
+		return ok && b.Op == token.SUB && hi[core.Resolve(core.StripConv(b.X))] && lo[core.Resolve(core.StripConv(b.Y))] && !lo[core.Resolve(core.StripConv(b.X))]
 	}
 	// unconditional compaction on every iteration of the receive loop?
 	outer := enclosingLoops(cp.Block())
@@ -567,7 +567,11 @@ func c04StreamProgress(c *core.Ctx, fn *ssa.Function) {
 		isConst bool
 	}
 	var cmps []cmp
-	for _, b := range fn.Blocks {
+	var allBlocks []*ssa.BasicBlock
+	for _, g := range core.Reach(fn) {
+		allBlocks = append(allBlocks, g.Blocks...)
+	}
+	for _, b := range allBlocks {
 		if len(b.Instrs) == 0 {
 			continue
 		}
@@ -627,7 +631,8 @@ func c04StreamProgress(c *core.Ctx, fn *ssa.Function) {
 	returnsErr := func(b *ssa.BasicBlock) bool {
 		for i := 0; i < 3 && b != nil; i++ {
 			if r, ok := b.Instrs[len(b.Instrs)-1].(*ssa.Return); ok {
-				return len(r.Results) == 1 && !core.IsNilConst(r.Results[0])
+				// the error result (last) is not nil
+				return len(r.Results) >= 1 && !core.IsNilConst(r.Results[len(r.Results)-1])
 			}
 			if len(b.Succs) != 1 {
 				return false
